@@ -256,6 +256,19 @@ def sized(k, rng, code, tok, opts, body):
     return Spec(lab, E(code, tok, opts, plen), rng.randbytes(plen))
 
 
+def sig_frame(k, rng, code, tok, opts, maxmsg, p_payload):
+    """A signalling message; with probability p_payload it carries a diagnostic
+    payload (RFC 8323 5.1 allows one in every signalling message) sized so that
+    options + payload sit at an extended-length boundary now and then."""
+    if rng.random() >= p_payload:
+        return Spec(k, E(code, tok, opts))
+    ol = opts_len(opts)
+    body = rng.choice([ol + 2, ol + 8, 11, 12, 13, 14, 268, 269, 270])
+    body = max(ol + 2, min(body, maxmsg - 16))
+    s = sized(k + "+pay", rng, code, tok, opts, body)
+    return s
+
+
 REQ_CODES = [1, 2, 3, 4, 5, 6, 7, 31]
 RESP_CODES = [65, 68, 69, 95, 128, 132, 143, 160, 165]
 BAD_BODIES = [[0xF0], [0x1F, 0x00], [0xB5, 0x61], [0xD0], [0xE0, 0x00], [0x0E, 0x01], [0xB1, 0x61, 0xF1]]
@@ -270,18 +283,17 @@ def gen_frame(rng, kind, maxmsg, ptoks, big_ok):
             opts.append([4, []])
         if rng.random() < 0.3:
             opts.append([rng.choice([6, 1000, 65000]), list(rng.randbytes(rng.randint(0, 3)))])
-        return Spec("csm", E(CSM, [], opts))
+        return sig_frame("csm", rng, CSM, rand_token(rng) if rng.random() < 0.2 else [], opts, maxmsg, 0.15)
     if kind == "ping":
-        return Spec("ping", E(PING, rand_token(rng), [[2, []]] if rng.random() < 0.2 else []))
+        return sig_frame("ping", rng, PING, rand_token(rng), [[2, []]] if rng.random() < 0.2 else [], maxmsg, 0.4)
     if kind == "pong":
-        return Spec("pong", E(PONG, rand_token(rng)))
+        return sig_frame("pong", rng, PONG, rand_token(rng), [], maxmsg, 0.3)
     if kind == "release":
         opts = rng.choice([[], [[2, list(b"coap+tcp://alt.example")]], [[4, [5]]]])
-        return Spec("release", E(RELEASE, [], opts))
+        return sig_frame("release", rng, RELEASE, rand_token(rng) if rng.random() < 0.25 else [], opts, maxmsg, 0.3)
     if kind == "abort":
-        pay = rng.choice([b"", b"go away"])
         opts = [[2, [1]]] if rng.random() < 0.3 else []
-        return Spec("abort", E(ABORT, [], opts, len(pay)), pay)
+        return sig_frame("abort", rng, ABORT, rand_token(rng) if rng.random() < 0.25 else [], opts, maxmsg, 0.5)
     if kind == "sig-crit":
         code = rng.choice(KNOWN_SIG)
         name = {CSM: "csm", PING: "ping", PONG: "pong", RELEASE: "release", ABORT: "abort"}[code]
@@ -428,7 +440,33 @@ def gen_sequence(rng, big_ok):
         specs.append(s)
         if s.k == "oversize-hdr":
             break  # whatever followed would be swallowed as its body
-    return {"specs": specs, "maxmsg": maxmsg, "npend": npend, "role": role}
+    return {
+        "specs": specs,
+        "maxmsg": maxmsg,
+        "npend": npend,
+        "role": role,
+        # the peer has stopped reading (write backlog) / the pending requests were started
+        # together before the host was connected (one connection each, one of them filed)
+        "backlog": rng.random() < 0.35,
+        "spawn": "concurrent" if npend == 2 and rng.random() < 0.4 else None,
+    }
+
+
+def pipelined(rng, n):
+    """CSM + n small frames: what a pipelining peer puts into one segment."""
+    specs = [gen_frame(rng, "csm", 1 << 20, [], False)]
+    for i in range(n):
+        k = rng.choice(["req", "req", "req", "ping", "empty", "resp"])
+        tok = list(i.to_bytes(2, "big"))
+        if k == "req":
+            specs.append(Spec("req", E(1, tok, [[11, [97 + i % 26]]])))
+        elif k == "resp":
+            specs.append(Spec("resp", E(69, tok, [], 1), bytes([i & 0xFF])))
+        elif k == "ping":
+            specs.append(Spec("ping", E(PING, tok)))
+        else:
+            specs.append(Spec("empty", E(0, [])))
+    return specs
 
 
 def boundary_sequences(rng, tier):
@@ -459,6 +497,20 @@ def boundary_sequences(rng, tier):
             r = gen_frame(rng, "req", mm, [], False)
             if x.k != "oversize-hdr":
                 out.append({"specs": [csm, r, x, gen_frame(rng, "req", mm, [], False)], "maxmsg": mm, "npend": 1, "role": "client"})
+            # the same with a write backlog, and on connections opened by concurrent first requests
+            x2 = gen_frame(rng, k, mm, [], False)
+            out.append({"specs": [csm, x2], "maxmsg": mm, "npend": 2, "role": "client", "backlog": True})
+            out.append({"specs": [csm, x2], "maxmsg": mm, "npend": 2, "role": "client", "spawn": "concurrent", "backlog": mm == 64})
+    # signalling messages with token and diagnostic payload, across the 13 / 269 boundaries
+    for code, k in ((PING, "ping"), (PONG, "pong"), (RELEASE, "release"), (CSM, "csm")):
+        for body in (2, 12, 13, 268, 269):
+            csm = gen_frame(rng, "csm", 1 << 20, [], False)
+            x = sized(k + "+pay", rng, code, list(rng.randbytes(rng.choice([0, 2, 8]))), [], body)
+            out.append({"specs": [csm, x, gen_frame(rng, "req", 1200, [], False), gen_frame(rng, "ping", 1200, [], False)], "maxmsg": 1 << 20, "npend": 2, "role": "client"})
+    # pipelining: many complete frames in one segment
+    for n in (100, 300, 1500) if tier == "thorough" else (100, 300):
+        specs = pipelined(rng, n)
+        out.append({"specs": specs, "maxmsg": 1 << 20, "npend": 0, "role": "server", "pieces": [1, 2]})
     return out
 
 
@@ -512,8 +564,31 @@ def build_cases(rng, seqs, heads_iter, want_single=True):
             else:
                 b = bytes(head) + s.pay
             frames.append({"k": s.k, "b": list(b)})
-        for cuts in chunkings(rng, [f["b"] for f in frames], want_single):
-            cases.append({"frames": frames, "cuts": cuts, "maxmsg": sq["maxmsg"], "npend": sq["npend"], "role": sq["role"], "src": "gen"})
+        if sq.get("pieces"):
+            total = sum(len(f["b"]) for f in frames)
+            # cut between two frames, not too close to either end
+            ends = []
+            e = 0
+            for f in frames:
+                e += len(f["b"])
+                ends.append(e)
+            mid = ends[(2 * len(ends)) // 3]
+            cutss = [[total] if n == 1 else [mid, total - mid] for n in sq["pieces"]]
+        else:
+            cutss = chunkings(rng, [f["b"] for f in frames], want_single)
+        for cuts in cutss:
+            cases.append(
+                {
+                    "frames": frames,
+                    "cuts": cuts,
+                    "maxmsg": sq["maxmsg"],
+                    "npend": sq["npend"],
+                    "role": sq["role"],
+                    "backlog": bool(sq.get("backlog")),
+                    "spawn": sq.get("spawn"),
+                    "src": "gen",
+                }
+            )
     return cases
 
 
@@ -586,7 +661,19 @@ def behaviours_to_cases(behaviours, arch):
         if key in seen:
             continue
         seen.add(key)
-        cases.append({"frames": frames, "cuts": cuts, "maxmsg": MODEL_MAXMSG, "npend": 2, "role": "client", "src": "model", "expect": expect})
+        cases.append(
+            {
+                "frames": frames,
+                "cuts": cuts,
+                "maxmsg": MODEL_MAXMSG,
+                "npend": 2,
+                "role": "client",
+                "backlog": len(cases) % 3 == 2,  # every third one with the peer not reading
+                "spawn": None,
+                "src": "model",
+                "expect": expect,
+            }
+        )
     return cases
 
 
@@ -622,8 +709,20 @@ def norm_kind(k):
     return k
 
 
+def compress(kinds):
+    """Label list for a signature; long (pipelined) streams by their distinct kinds."""
+    kinds = [norm_kind(k) for k in kinds]
+    if len(kinds) <= 12:
+        return ",".join(kinds)
+    seen = []
+    for k in kinds:
+        if k not in seen:
+            seen.append(k)
+    return "pipelined(>12 frames):" + ",".join(seen)
+
+
 def shape_of(case, upto):
-    return ",".join(norm_kind(f["k"]) for f in case["frames"][:upto])
+    return compress([f["k"] for f in case["frames"][:upto]])
 
 
 def hexs(b):
@@ -737,11 +836,10 @@ def work(rep, args):
         gen_cases = build_cases(rng, seqs, hi)
         all_cases = model_cases + gen_cases
         results = run_cases(all_cases)
-        for c, o in zip(all_cases, results):
-            if "error" in o:
-                raise MachineryError("driver failed on case %s\n%s" % ([f["k"] for f in c["frames"]], o["error"]))
-            if len(o["steps"]) < len(c["cuts"]) and not (o["steps"] and (o["steps"][-1]["closed"] or o["steps"][-1]["exc"])):
-                raise MachineryError("driver stopped early without reason on %s" % [f["k"] for f in c["frames"]])
+        check_ran(all_cases, results)
+        xc, xr, _ = expand(all_cases, results)
+        all_cases = all_cases + xc  # model cases stay in front
+        results = results + xr
         t_run = time.time() - t0 - t_tlc
 
         # ---- 4. the recorded executions go back to TLC ----------------------------
@@ -805,6 +903,11 @@ def work(rep, args):
                 "generated_cases": len(gen_cases),
                 "single_byte_chunkings": sum(1 for c in all_cases if len(c["cuts"]) > 1 and all(n == 1 for n in c["cuts"])),
                 "chunks_fed": sum(len(o["steps"]) for o in results),
+                "executions_with_write_backlog": sum(1 for c in all_cases if c.get("backlog")),
+                "executions_on_concurrently_opened_connections": sum(1 for c in all_cases if c.get("spawn")),
+                "executions_on_connections_not_in_pool": sum(1 for o in results if o.get("in_pool") is False),
+                "most_frames_in_one_stream": max(len(c["frames"]) for c in all_cases),
+                "signalling_frames_with_payload": sum(1 for c in all_cases for f in c["frames"] if "+pay" in f["k"]),
                 "frames_over_60000_bytes": sum(1 for c in gen_cases for f in c["frames"] if len(f["b"]) > 60000),
                 "serialisation_cases": len(sers),
                 "serialisation_body_lengths": sorted(b for b in ser_bodies if b in (0, 1, 12, 13, 14, 268, 269, 270, 65804, 65805, 65806)),
@@ -831,19 +934,54 @@ def work(rep, args):
         ]
 
 
-def judge_cases(wd, tag, cases):
-    results = run_cases(cases)
+def expand(cases, results):
+    """One execution per connection: a case run with concurrent first requests
+    has several (harness/tcpdrive.py); the further ones are appended as cases
+    of their own (same stream, same chunks; "conn" = index of the connection)."""
+    xc, xr, owner = [], [], []
+    for i, (c, o) in enumerate(zip(cases, results)):
+        for k, o2 in enumerate(o.get("others") or []):
+            xc.append(dict(c, conn=k + 1))
+            xr.append(o2)
+            owner.append(i)
+    return xc, xr, owner
+
+
+def check_ran(cases, results):
     for c, o in zip(cases, results):
         if "error" in o:
-            raise MachineryError("driver failed: %s" % o["error"])
-    rx = [rx_record(c, o) for c, o in zip(cases, results)]
+            raise MachineryError("driver failed on case %s\n%s" % ([f["k"] for f in c["frames"]], o["error"]))
+        for o2 in [o] + (o.get("others") or []):
+            if len(o2["steps"]) < len(c["cuts"]) and not (o2["steps"] and (o2["steps"][-1]["closed"] or o2["steps"][-1]["exc"])):
+                raise MachineryError("driver stopped early without reason on %s" % [f["k"] for f in c["frames"]])
+
+
+def judge_cases(wd, tag, cases):
+    """Runs and judges `cases`; per case the execution (of the connection)
+    that breaks a clause, if there is one."""
+    results = run_cases(cases)
+    check_ran(cases, results)
+    xc, xr, owner = expand(cases, results)
+    rx = [rx_record(c, o) for c, o in zip(cases + xc, results + xr)]
     _, verdicts = tlc_eval(wd, tag, [], rx, timeout=600, parts=2)
-    return results, verdicts
+    out_r, out_v = list(results), list(verdicts[: len(cases)])
+    for k, i in enumerate(owner):
+        v = verdicts[len(cases) + k]
+        if any(x.startswith("C15_") for x in v["bad"]) and not any(x.startswith("C15_") for x in out_v[i]["bad"]):
+            out_r[i], out_v[i] = xr[k], v
+    return out_r, out_v
+
+
+MODE_KEYS = ("maxmsg", "npend", "role", "backlog", "spawn")
+
+
+def mode_of(c):
+    return ("+backlog" if c.get("backlog") else "") + ("+concurrent" if c.get("spawn") == "concurrent" else "")
 
 
 def first_csm(frames, upto):
     for f in frames[:upto]:
-        if f["k"] in ("csm", "csm+elective"):
+        if f["k"].split("/")[0] in ("csm", "csm+elective", "csm+pay"):
             return f
     return None
 
@@ -854,25 +992,27 @@ def describe(clause, n, rc, ro, rv):
     step = ro["steps"][k - 1] if k and k <= len(ro["steps"]) else {}
     return (
         "%s false on a real execution (%d executions of this shape).\n"
-        "reproduction: role=%s, local maximum message size %d, %d pending requests; peer sends %s = %s%s in chunks %s\n"
+        "reproduction: role=%s%s, local maximum message size %d, %d pending requests; peer sends %s = %s%s in chunks %s\n"
         "after chunk %d the statement demands: dispatched %d messages (codes %s), written %s, state %s;\n"
         "the connection dispatched %s, wrote %s, closed=%s, pending=%s%s"
         % (
             clause,
             n,
             rc["role"],
+            (", peer not reading (write backlog)" if rc.get("backlog") else "")
+            + (", requests started concurrently (one connection each; this one %s the pool)" % ("is in" if ro.get("in_pool") else "is NOT in") if rc.get("spawn") else ""),
             rc["maxmsg"],
             rc["npend"],
-            [f["k"] for f in rc["frames"]],
+            [f["k"] for f in rc["frames"]] if len(rc["frames"]) <= 12 else compress([f["k"] for f in rc["frames"]]) + " (%d frames)" % len(rc["frames"]),
             hexs(stream[:48]),
             "..." if len(stream) > 48 else "",
             rc["cuts"][:16],
             k,
             rv["exp"]["ndisp"],
-            rv["exp"]["codes"],
+            rv["exp"]["codes"] if len(rv["exp"]["codes"]) <= 12 else "%s..." % rv["exp"]["codes"][:12],
             rv["exp"]["wr"],
             rv["exp"]["done"],
-            [(d["how"], d["code"], hexs(d["tok"]), len(d["pay"])) for s in ro["steps"][:k] for d in s["disp"]],
+            (lambda dd: dd if len(dd) <= 10 else "%d messages, the last one %s" % (len(dd), dd[-1]))([(d["how"], d["code"], hexs(d["tok"]), len(d["pay"])) for s in ro["steps"][:k] for d in s["disp"]]),
             hexs([x for s in ro["steps"][:k] for x in s["wr"]][:40]),
             step.get("closed"),
             step.get("pend"),
@@ -890,6 +1030,8 @@ def replay_data(rc, ro, rv):
             "maxmsg": rc["maxmsg"],
             "npend": rc["npend"],
             "role": rc["role"],
+            "backlog": bool(rc.get("backlog")),
+            "spawn": rc.get("spawn"),
         },
         "replayable": small,
         "observed": ro["steps"] if small else None,
@@ -917,11 +1059,11 @@ def report_failures(rep, wd, all_cases, results, verdicts, failing):
             if not f["b"]:
                 continue
             csm = first_csm(c["frames"], j)
-            key = (csm is not None, norm_kind(f["k"]), c["npend"] > 0)
+            key = (csm is not None, norm_kind(f["k"]), c["npend"] > 0, mode_of(c))
             if key in atoms or len(atoms) >= 150:
                 continue
             fr = ([csm] if csm else []) + [f]
-            atoms[key] = {"frames": fr, "cuts": [len(x["b"]) for x in fr], "maxmsg": c["maxmsg"], "npend": c["npend"], "role": c["role"]}
+            atoms[key] = dict({k: c.get(k) for k in MODE_KEYS}, frames=fr, cuts=[len(x["b"]) for x in fr])
     akeys = list(atoms)
     ares, aver = judge_cases(wd, "atoms", [atoms[k] for k in akeys])
     abad = {k: (atoms[k], o, v) for k, o, v in zip(akeys, ares, aver) if clauses_of(v)}
@@ -944,7 +1086,7 @@ def report_failures(rep, wd, all_cases, results, verdicts, failing):
 
     for i in failing:
         c, v = all_cases[i], verdicts[i]
-        keys = [(first_csm(c["frames"], j) is not None, norm_kind(f["k"]), c["npend"] > 0) for j, f in enumerate(c["frames"])]
+        keys = [(first_csm(c["frames"], j) is not None, norm_kind(f["k"]), c["npend"] > 0, mode_of(c)) for j, f in enumerate(c["frames"])]
         todo = clauses_of(v)
         if "NOTE_exception" in v["bad"]:
             # data_received raised: whatever clauses this execution breaks from there on
@@ -952,16 +1094,16 @@ def report_failures(rep, wd, all_cases, results, verdicts, failing):
             hit = next((k for k in keys if k in abad and "NOTE_exception" in abad[k][2]["bad"]), None)
             if hit:
                 for clause in clauses_of(abad[hit][2]):
-                    e = sigs.setdefault("%s|%s" % (clause, shape_of(abad[hit][0], 9)), [clause, 0, abad[hit]])
+                    e = sigs.setdefault("%s|%s%s" % (clause, shape_of(abad[hit][0], 9), mode_of(c)), [clause, 0, abad[hit]])
                     e[1] += 1
                 todo = [x for x in todo if x not in ("C15_DispatchIndependentOfChunking", "C15_FatalAborts")]
         for clause in todo:
             hit = next((k for k in keys if k in abad and clause in abad[k][2]["bad"]), None)
             if hit:
-                e = sigs.setdefault("%s|%s" % (clause, shape_of(abad[hit][0], 9)), [clause, 0, abad[hit]])
+                e = sigs.setdefault("%s|%s%s" % (clause, shape_of(abad[hit][0], 9), mode_of(c)), [clause, 0, abad[hit]])
                 e[1] += 1
             else:
-                unexplained.setdefault((clause, tuple(touched_by(c, v))), []).append(i)
+                unexplained.setdefault((clause, tuple(touched_by(c, v)), mode_of(c)), []).append(i)
 
     # 3. the rest: same frames, one chunk per frame
     ukeys = sorted(unexplained, key=lambda k: (len(k[1]), k))
@@ -971,23 +1113,23 @@ def report_failures(rep, wd, all_cases, results, verdicts, failing):
         i = min(unexplained[key], key=lambda j: (len(all_cases[j]["frames"]), len(all_cases[j]["cuts"])))
         c = all_cases[i]
         fr = [f for f in c["frames"] if f["b"]]
-        cand.append({"frames": fr, "cuts": [len(f["b"]) for f in fr], "maxmsg": c["maxmsg"], "npend": c["npend"], "role": c["role"], "_i": i})
+        cand.append(dict({k: c.get(k) for k in MODE_KEYS}, frames=fr, cuts=[len(f["b"]) for f in fr], _i=i))
     cres, cver = judge_cases(wd, "loc", cand) if cand else ([], [])
     for key, c2, o2, v2 in zip(loc, cand, cres, cver):
-        clause, touched = key
+        clause, touched, mode = key
         i = c2["_i"]
         if clause in v2["bad"] and v2["first"]:
-            sig = "%s|%s" % (clause, shape_of(c2, v2["first"]))
+            sig = "%s|%s%s" % (clause, shape_of(c2, v2["first"]), mode)
             rep_case = (c2, o2, v2)
         else:
-            sig = "%s|chunking:%s" % (clause, ",".join(touched))
+            sig = "%s|chunking:%s%s" % (clause, compress(touched), mode)
             rep_case = (all_cases[i], results[i], verdicts[i])
         e = sigs.setdefault(sig, [clause, 0, rep_case])
         e[1] += len(unexplained[key])
     for key in ukeys[40:]:
-        clause, touched = key
+        clause, touched, mode = key
         i = unexplained[key][0]
-        e = sigs.setdefault("%s|chunking:%s" % (clause, ",".join(touched)), [clause, 0, (all_cases[i], results[i], verdicts[i])])
+        e = sigs.setdefault("%s|chunking:%s%s" % (clause, compress(touched), mode), [clause, 0, (all_cases[i], results[i], verdicts[i])])
         e[1] += len(unexplained[key])
 
     for sig in sorted(sigs):
